@@ -830,6 +830,11 @@ func (h *vHarness) vRunHistory(w *bufio.Writer, rng *rand.Rand, wd *vWorld, nEve
 					h.simple(w, "runpod "+fp.id+" "+fp.ns+" "+fp.qos, func() ([]*api.ContainerUpdate, error) { return nil, h.m.nri.RunPodSandbox(ctx, fp.nri()) })
 					if res := h.createCtr(w, fc); strings.HasPrefix(res, "ok") {
 						squeeze = true
+						// (the pod chosen above is replaced: if it was generated for this step and never announced, it must not
+						// linger in the runtime's world - a later Synchronize would list a pod no RunPodSandbox event introduced)
+						if !p.announced {
+							delete(wd.pods, p.id)
+						}
 						p = &vPod{id: fmt.Sprintf("p%d", wd.nPod), name: fmt.Sprintf("pod%d", wd.nPod), ns: "default", qos: "Guaranteed", ann: map[string]string{}}
 						wd.nPod++
 						wd.pods[p.id] = p
